@@ -353,6 +353,9 @@ def choose(rng, m):
             if l is None:
                 continue
             return l
+        if live and rng.chance(0.25):
+            # the default shallow copy refuses user data: a silent failure (round-7 seed C05-13)
+            return "copyd %d" % rng.choice(live)
         if live:
             src = rng.choice(live)
             n = m.usize(src)
